@@ -397,6 +397,8 @@ def run(tier, seed, only_c19=False):
     if not only_c19:
         obligations.append(history_bound_obligation(prog))
         obligations.append(paging_obligation(prog, tier))
+        from . import c09filter
+        obligations.append(c09filter.run(tier, seed))
     from lib import native
     for ob in obligations:
         if ob.get("verdict") == "violation":
